@@ -435,6 +435,12 @@ def apply_stage(ds, st, parallel=True):
         if st.get('map'):
             other = other.map(MapFn(st['map']))
         return ds.concatenate(other)
+    if op == 'intersperse':
+        other = make_source({'kind': st.get('kind', 'list'), 'n': st['n']},
+                            offset=st.get('offset', 100))
+        if st.get('map'):
+            other = other.map(MapFn(st['map']))
+        return ds.intersperse(other)
     if op == 'zip':
         other = make_source({'kind': 'list', 'n': st['n']},
                             offset=st.get('offset', 200))
